@@ -39,11 +39,18 @@ def filter (req : Json) : R Reply := do
     | "decompose" => runFilter decomposeStep incl gs
     | "decomposeTransformed" => runFilter decomposeTransformedStep incl gs
     | "flatten" => runFilter flattenStep incl gs
-    | "transformations" => runFilter (transformStep m incl) incl gs
+    | "transformations" =>
+      -- `TransformPointPen.__init__` inverts the filter matrix eagerly: with a singular matrix (ScaleX = 0 ...) the first
+      -- included non-empty glyph makes the real filter raise ZeroDivisionError.  The model function is total there (its
+      -- theorems assume 0 < det); the guard below (before `match res`) mirrors the code for the correspondence.
+      runFilter (transformStep m incl) incl gs
     | "propagateAnchors" => runFilter (propagateStep bnd marks) incl gs
     | _ => .error .assertion
   let obs ← field req "obs"
   let oerr ← asOpt asStr (← field obs "err")
+  if fname == "transformations" && m.det == 0 &&
+      gs.any (fun e => incl e.1 && !(e.2.contours.isEmpty && e.2.comps.isEmpty && e.2.anchors.isEmpty)) then
+    return { model := Json.mkObj [("err", "ZeroDivisionError")], holds := oerr.isSome }
   match res with
   | .error e => return { model := Json.mkObj [("err", gerrJ e)], holds := oerr.isSome }
   | .ok st =>
